@@ -91,7 +91,7 @@ func nativeReplay(o *Options, prog *Program, f *Failure, file string) (bool, boo
 	if err != nil {
 		return false, false, err.Error()
 	}
-	cmd := exec.Command("go", "test", "-tags", "verif", "-overlay", ov, "-vet=off", "-count=1", "-run", "^TestVerifReplay$", "-timeout", "120s", ".")
+	cmd := exec.Command("go", "test", "-tags", "verif", "-overlay", ov, "-vet=off", "-count=1", "-v", "-run", "^TestVerifReplay$", "-timeout", "120s", ".")
 	cmd.Dir = o.repo
 	cmd.Env = append(os.Environ(), "GOFLAGS=-mod=mod", "GOPROXY=off", "GOSUMDB=off", "GOTOOLCHAIN=local",
 		"VERIF_REPLAY="+file, "VERIF_HARNESS="+f.Harness)
@@ -114,6 +114,8 @@ func nativeReplay(o *Options, prog *Program, f *Failure, file string) (bool, boo
 		return true, true, "native go test panicked: " + firstLine(s, "VERIF-PANIC")
 	case strings.Contains(s, "VERIF-ASSERT-FAILED") && f.Kind == "assert" && strings.Contains(s, f.Label):
 		return true, true, "native go test failed the same assertion"
+	case strings.Contains(s, "--- SKIP"):
+		return false, false, "native run skipped: " + firstLine(s, "SKIP")
 	case strings.Contains(s, "\nok ") || strings.HasPrefix(s, "ok "):
 		return true, false, "native go test passed"
 	}
